@@ -38,7 +38,7 @@ def jobs(tier):
                 cells += [((2, 2), (0, 1)), ((1, 2, 1), (0, 1, 1))]
         for shape, ranks in cells:
             for clause in ('tau', 'ls', 'omit', 'tauls'):
-                if tm and clause == 'tauls' and tier == 'quick':
+                if tm and clause == 'tauls' and tier == 'quick' and ranks[0] == ranks[1]:
                     continue
                 if tm and clause != 'tau' and ranks[0] == ranks[1] and tier == 'quick':
                     continue  # TM ties: 9 numeric paths x 4 clamp paths x 4 variants; thorough only
